@@ -15,7 +15,7 @@ def prop(pid):
         cls.pid = pid; cls.statement = STATEMENTS[pid]; REG[pid] = cls(); return cls
     return deco
 TESTED_ONLY = {
- 'C01': ['survival of the face / basis counts under deletions for unbounded histories (every *added* simplex is proved to have exactly its k+1 distinct faces; that deletions remove cofaces first is not proved), basis of k+1 points, no shared basis, maxOrder = largest populated order: proved only for complexes on <= 4 points (kernel sweep); beyond that by the wf oracle after every step of every history'],
+ 'C01': ['a basis of exactly k+1 points, no two simplices sharing a basis, maxOrder = largest populated order: proved only for complexes on <= 4 points (kernel sweep); beyond that by the wf oracle after every step of every history (k+1 distinct faces of order k-1 is proved for every history of public operations)'],
  'C02': ['effects and frames of delete / restrict / add by basis / subdivide beyond 4 points (add by faces and bulk add without renaming are proved for every history); bulk add under a renaming; attribute read-back (oracle c02-pre/post)'],
  'C03': ['basis = closure points, d.d = 0, boundary() of chains beyond 4 points (views oracle after every step); shapes, entries and cofaces = inverse of faces are proved for every history'],
  'C04': ['closure / star / lookups beyond 4 points; disjoint() beyond 3 points and for 4-tuples; returned names having the Python type they were created with (oracle c04)'],
@@ -24,7 +24,7 @@ TESTED_ONLY = {
  'C07': ['boundary() of a returned chain being [] through the public call (oracle c07); count, cycles (on the matrix) and independence are proved'],
  'C08': ['that the *code* does not write through numpy views or shared dictionaries (before/after oracle on every call); heap frames of constructors other than copy'],
  'C09': ['attribute values of copies; contents and freshness of compose / flagComplex / vietorisRipsComplex / Filtration.copy; follow-up mutation scripts on either side (oracles fresh, same-content, unchanged)'],
- 'C10': ['delete makes strictly smaller (oracle c10 on mutated copies); copy == source is proved for sources with the right face counts'],
+ 'C10': ['complexes differing in a highest-order simplex or a lone point are never equal, as a statement of its own (oracle c10 on mutated copies); copy == source and delete => strictly smaller are proved'],
  'C11': ['flag complexes beyond 4 points; growFlagComplex = rebuild (oracles c11, samefam)'],
  'C12': ['the family for arbitrary point sets in binary64 (oracle c12 with its own metric; the binary64 model itself is compared bit for bit with the code on every run); negative radius and diameter cases beyond the examples'],
  'C13': ['closedness of every view, deletion of the whole star across indices, indices() covering the births, complexes() (shadow-log oracle c13)'],
